@@ -512,3 +512,29 @@ Proof.
   exists {| a_dims := v3z 2 2 2; a_get := fun _ => 7; a_num := 8 |}, (v3z 1 1 1), (v3z 1 2 2).
   split; [|reflexivity]. intros c. unfold in_region. cbn. lia.
 Qed.
+
+(* ------------------------------------------------------------ Array3DRepeater (as coded) *)
+Lemma repeater_def a rs w :
+  a_get (repeater a rs) w = a_get a (rep_coord rs w) /\ a_dims (repeater a rs) = rs /\ a_num (repeater a rs) = total3 rs.
+Proof. repeat split; reflexivity. Qed.
+
+(* per axis, for a non-negative coordinate: period n, every odd repetition mirrored; the result is inside [0, n) *)
+Lemma rep_axis_mirror n w : 0 < n -> 0 <= w ->
+  rep_axis n w = (if Z.even (w / n) then w mod n else n - 1 - w mod n) /\ 0 <= rep_axis n w < n.
+Proof.
+  intros Hn Hw. unfold rep_axis.
+  pose proof (Z.mod_pos_bound w n Hn) as Hb. pose proof (Z.div_pos w n Hw Hn) as Hq.
+  rewrite (Z.quot_div_nonneg w n) by lia. rewrite (Z.rem_mod_nonneg w n) by lia.
+  rewrite (Z.rem_mod_nonneg (w / n) 2) by lia. rewrite Zmod_even.
+  destruct (Z.even (w / n)); cbn; lia.
+Qed.
+
+(* inside [0, repeatedSize) the repeater is the identity on coordinates: what is returned is decided by the source's
+   own get (for an ActualArray3D: the value of the nearest source cell) - it does not tile the source *)
+Lemma repeater_inside a rs w : in3 rs w -> a_get (repeater a rs) w = a_get a w.
+Proof.
+  destruct rs as [nx ny nz], w as [x y z]. unfold in3. cbn [vec3_x vec3_y vec3_z]. intros (Hx & Hy & Hz).
+  unfold repeater, rep_coord, rep_axis. cbn [a_get vec3_x vec3_y vec3_z].
+  rewrite (Z.quot_small x nx), (Z.quot_small y ny), (Z.quot_small z nz) by lia.
+  rewrite (Z.rem_small x nx), (Z.rem_small y ny), (Z.rem_small z nz) by lia. reflexivity.
+Qed.
